@@ -11,6 +11,7 @@ LEVEL_TEXT = (
     "caller's order and yielded keys are trimmed by the prefix; the encoding appends encode_length(ns) then ns per "
     "segment in order and diverges above 0xFFFF. NOT decided: prefix-freeness of the 2-byte length code, the carry "
     "arithmetic of namespace_upper_bound and trim's slice arithmetic (byte-level numeric facts)."
+    " Added after defect 7: a raw key of the base range is cut at len(prefix) only after starts_with(prefix) held for it, and nothing else filters the base range; the open end bound is chosen exactly when a scan over the namespace bytes found no byte other than 0xFF."
 )
 EXPLANATION = LEVEL_TEXT
 TRUSTED = ["rustc type/borrow checker and MIR construction", "cwmt-facts driver", "vlib (provenance, dominators)",
